@@ -61,6 +61,8 @@ type call struct {
 	MayCancel bool
 	Deadline  time.Duration
 	StartAt   time.Duration // fake time of launch
+	List      int           // proxy calls: the log list the Proxy must be working from (-1: cannot be told)
+	ListMoved bool          // the log-list file changed while the call ran
 
 	mu        sync.Mutex
 	Contacted map[string]int // logURL -> times the chain was sent
@@ -119,6 +121,9 @@ type World struct {
 	llPath    string
 	llJSON    [2][]byte
 	llWhich   int
+	llStolen  bool          // a direct RefreshLogList ran since the last change of the file
+	llSince   time.Duration // fake time of the last change of the log-list file
+	llRetired string        // the log the second list retires ("" if it drops one instead)
 	partyMu   sync.Mutex
 	byParty   map[string]*call
 }
@@ -548,6 +553,11 @@ func (w *World) compatibleList(c *call) *loglist3.LogList {
 // Options implements kernel.World.
 func (w *World) Options(s *kernel.Sim) []kernel.Option {
 	var opts []kernel.Option
+	if w.ls != nil && !s.FaultsOn() {
+		// settle phase: the bounded-liveness clauses are about the code under test, not about how many
+		// statement boundaries the driver still wants to stop at - nobody parks at locks or yields any more
+		w.ls.Quiet()
+	}
 	parked := s.ParkedCalls()
 	held, heldLimit := w.heldCalls(parked)
 	if os.Getenv("VERIF_DEBUG_OPTS") != "" {
